@@ -81,9 +81,13 @@ class ThreadDoneCallback:
                     # Not to lose threads registered in the meantime
                     self._active = self._active - done
             time.sleep(self._interval)
+            # Read self._closed before self._active. All threads are registered
+            # before close() is called. If read in the other order, a thread
+            # registered, and close() called, between the two reads is missed.
+            closed = self._closed
             if self._active:
                 continue
-            if self._closed:
+            if closed:
                 break
         if exc:
             raise exc[0]
